@@ -21,7 +21,7 @@ RULE = ("case = callback table + script over the real toplevel instance (default
         "cancel target state, destroy notifications).")
 ASSUMPTIONS = ["no int overflow in time arithmetic (deadlines within +-2^30 us of the clock)",
                "a callback cancels only watches that are still live (not yet invoked with UNBIND, not cancelled), and not itself while it runs",
-               "malloc does not fail", "tickit_tick is not re-entered from inside a callback; the application holds one reference and may drop it anywhere (script action d): "
+               "malloc does not fail", "a nested tickit_tick from inside a callback and DESTROY handlers that register / cancel watches are covered by the separate executable model coq/LoopNest.v (cases WN: correspondence and witnesses), not by the general theorems; a DESTROY handler acts only on watches of kinds destroyed later; the application holds one reference and may drop it anywhere (script action d): "
                "the instance then dies when the running tickit_tick returns (fixes/C18-tick-holds-reference.patch) and the script ends"]
 TRUSTED = ["model coq/LoopDefs.v hand-written after src/tickit.c (with fixes/C17-*.patch applied); specification coq/LoopSpec.v "
            "(priority queue keyed by (deadline, registration number), snapshot semantics of an iteration)",
@@ -122,6 +122,43 @@ def gen(tier, seed, info):
             yield "cb2=- %s %s r0" % (pre, tok)
     info["lifetime_cases"] = nlt
     n += nlt
+    # ---- the relative entry points (tickit_watch_timer_after_msec / _after_tv), delay 0 included: a deadline like any
+    #      other -- in deadline order with the timers registered by absolute time, before the deferred callbacks
+    nrel = 0
+    for z in ["ta0:0:1", "tu0:0:1", "ta0:2:1", "tu1:0:1", "ta1:0:1", "tu999:6:1"]:
+        for others in ["t500:0:2", "t0:0:2", "t500:0:2 l0:2", "t-10:0:2 t700:2:2", "l2:2 t1:0:2"]:
+            for tail in ["r1000", "r0 r1000", "o o", "r0"]:
+                nrel += 2
+                yield "cb1=- cb2=- %s %s %s" % (z, others, tail)
+                yield "cb1=- cb2=%s %s %s r0" % (z, others, tail)
+    info["relative_timer_cases"] = nrel
+    n += nrel
+    # ---- nest cases (coq/LoopNest.v): a callback that runs a NESTED iteration (n) while other due watches wait their turn;
+    #      DESTROY handlers (db<k>=...) that register / cancel watches of the kinds destroyed later
+    nnest = 0
+    for body in ["n", "n,t0:0:3", "t0:0:3,n", "l0:3,n", "n,n", "c1,n", "n,c2", "t-5:2:3,l2:3,n"]:
+        for regs in ["t0:0:1 t0:0:2 t5000:0:2", "t0:0:2 t0:0:1 t1:0:2 t5000:2:2", "l0:1 t0:0:2 l0:2", "t0:0:1 l0:2 t0:2:2 l2:2",
+                     "ta0:0:1 t0:6:2 l6:2 t900:0:2"]:
+            for tail in ["r0 r10000", "r1 r0", "r1000 r0 r5000"]:
+                nnest += 1
+                yield "WN cb1=%s cb2=- cb3=- %s %s" % (body, regs, tail)
+    for body in ["n", "n,l0:3"]:
+        nnest += 1
+        yield "WN cb1=%s cb2=n cb3=- t0:0:1 t0:0:2 t0:0:3 l0:3 r0 r0" % body          # a nested iteration inside a nested one
+    DKIND = {"io": "wi0:1:%d:%d", "timer": "t5000:%d:%d", "later": "l%d:%d"}
+    for first, firstfl in [("io", 4), ("io", 6), ("timer", 4), ("timer", 6)]:
+        later_kinds = ["timer", "later"] if first == "io" else ["later"]
+        for db in ["l4:3", "l6:3", "t9000:4:3", "t100:2:3", "c1", "c2", "c1,l4:3", "l0:3,c2", "c1,c2"]:
+            if first == "timer" and "t" in db.replace("c", ""):
+                continue                                  # registering into the list under destruction: outside the model
+            for k2 in later_kinds:
+                for fl2 in (2, 4, 6, 0):
+                    victims = "%s %s" % (DKIND[k2] % (fl2, 2) if k2 != "later" else "l%d:2" % fl2, "l6:2")
+                    nnest += 1
+                    yield "WN db1=%s cb2=- cb3=- %s %s r0" % (db, DKIND[first] % (firstfl, 1) if first != "later" else "", victims) if False else \
+                          "WN db1=%s cb2=- cb3=- %s %s" % (db, DKIND[first] % (firstfl, 1), victims)
+    info["nest_cases"] = nnest
+    n += nnest
     info["chain_cases"] = nch
     n += nch
     # ---- cancel whose UNBIND notification registers a replacement (re-entrancy of tickit_watch_cancel)
@@ -253,7 +290,7 @@ def classify(case, obs):
 
 def shrink(case):
     toks = case.split()
-    keep = 1 if toks and toks[0] in ("WP", "WS", "WI") else 0      # the model selector is not a shrinkable token
+    keep = 1 if toks and toks[0] in ("WP", "WS", "WI", "WN") else 0      # the model selector is not a shrinkable token
     for i in range(keep, len(toks)):
         yield " ".join(toks[:i] + toks[i + 1:])
     for i, t in enumerate(toks):
